@@ -184,7 +184,7 @@ impl<'l> Tokenizer<'l>
 			{
 				let mut depth = 1; // support nested block comments
 				let mut start = 2; // to avoid combinations like "/*/" and "*/*"
-				let comment_bytes = self.data[..self.data.len() - 1].bytes().enumerate().skip(2).position(|(p, b)|
+				let comment_bytes = self.data.as_bytes()[..self.data.len() - 1].iter().copied().enumerate().skip(2).position(|(p, b)|
 				{
 					if b == b'/' && p >= start && self.data.as_bytes()[p + 1] == b'*'
 					{
